@@ -416,6 +416,22 @@ def core_spec(draw, core_rings=(1, 2), n_types=(1, 3), rings=(2, 4), ducts=(1, 2
     return spec
 
 
+def merge_assignment_lines(spec):
+    """Write runs of neighbouring positions of one ring that hold the same assembly type as ONE assignment line
+    (`name = ring, first, last, BC`): all of them get the boundary condition of the first.  Returns the number of lines merged."""
+    rows = sorted(spec["assignment"], key=lambda r: (r[1], r[2]))
+    out = []
+    merged = 0
+    for r in rows:
+        if out and out[-1][0] == r[0] and out[-1][1] == r[1] and out[-1][3] + 1 == r[2] and r[2] == r[3]:
+            out[-1][3] = r[3]
+            merged += 1
+        else:
+            out.append([r[0], r[1], r[2], r[3], dict(r[4])])
+    spec["assignment"] = out
+    return merged
+
+
 # ----------------------------------------------------------------------------------------------
 # pin models
 @st.composite
